@@ -587,6 +587,9 @@ func main() {
 	// (input, delivered deep copies, position and later reading of each kept sequence).
 	retain := hx.NewStream("retain", "model.Parser model.ParserCheck model.ParserRetain", "rcase", "c08_retain_mismatches", "c08_retain_violations")
 	retain.ShardMax = 50
+	if cfg.Thorough() {
+		retain.ShardMax = 150
+	}
 	addRetain := func(stream []byte, chunks [][]byte, keep func(int) bool, lag time.Duration, policy, tag string) {
 		res, later := runKeepLater(chunks, keep, lag, 5*time.Second)
 		js := map[string]interface{}{"segments": [][]int{ints(stream)}, "end": "eof", "items": res.Items, "eofs": res.EOFs,
@@ -852,6 +855,6 @@ func main() {
 				true, "child")
 		}
 	}
-	cfg.Write("C08", "race: child processes stress ESC followed about 10 ms later by the end of input or by \"[A\" (a send on the closed channel panics the child; a late callback garbles ESC [ A); truncate: grammar-generated streams cut at EVERY byte offset, ended by EOF or by a read error (alternating), read in one or two chunks, half of the runs retaining every delivered sequence without Finish (deep copies compared at the end); retain-pair / retain-class / retain-random: sequences of every buffer-carrying kind with and without private marker, intermediates, parameters and data, kept without Finish (all, every other, a random half) by a consumer that may lag behind, followed by sequences that collect intermediates / parameters / data (complete, cut by the end of input, cancelled), deep copies taken on delivery compared with the kept originals at the end; retain: PARTIAL hand-back - bursts of 8..24 sequences of every family that takes storage from the parser's pools (CSIs with 1..7 parameters and sub-parameters, private marker + intermediates, ESC / DCS with intermediates) or carries data, all numbers distinct within a stream, consumer finishes every k-th sequence (k = 2..6, every offset) / a prefix / a random quarter and KEEPS the rest, in step or lagging, any read chunking; each kept sequence is read again after the parser stopped and the case carries its position and that reading (predicate: it reads as delivered); timing: heads that leave the parser in each kind of state, then ESC, then 40 ms of real silence, then a tail (majority of up to three runs because real time is involved); close: Close() on a parser blocked in a read whose reader then returns forever. non-trivial = strictly inside the stream / any timing case",
+	cfg.Write("C08", "race: child processes stress ESC followed about 10 ms later by the end of input or by \"[A\" (a send on the closed channel panics the child; a late callback garbles ESC [ A); truncate: grammar-generated streams cut at EVERY byte offset, ended by EOF or by a read error (alternating), read in one or two chunks, half of the runs retaining every delivered sequence without Finish (deep copies compared at the end); retain-pair / retain-class / retain-random: sequences of every buffer-carrying kind with and without private marker, intermediates, parameters and data, kept without Finish (all, every other, a random half) by a consumer that may lag behind, followed by sequences that collect intermediates / parameters / data (complete, cut by the end of input, cancelled), deep copies taken on delivery compared with the kept originals at the end; retain: PARTIAL hand-back - bursts of 8..24 sequences of every family that takes storage from the parser's pools (CSIs with 1..7 parameters and sub-parameters, private marker + intermediates, ESC / DCS with intermediates) or carries data, all numbers distinct within a stream, consumer finishes every k-th sequence (k = 2..6, every offset) / a prefix / a random quarter and KEEPS the rest, in step or lagging, any read chunking; each kept sequence is read again after the parser stopped and the case carries its position and that reading (predicate: it reads as delivered); timing: heads that leave the parser in each kind of state, then ESC, then 40 ms of real silence, then a tail (majority of up to three runs because real time is involved); close: Close() on a parser blocked in a read whose reader then returns forever. non-trivial = strictly inside the stream / at least one kept buffer-carrying sequence (retain) / any timing case",
 		[]*hx.Stream{trunc, retain, timing, race}, map[string]interface{}{"timing_cases_needing_third_run": unstable, "close_runs": closeRuns}, direct)
 }
